@@ -19,9 +19,9 @@ CFGS = {
               ("c11-c", dict(CrashAt='{"idle"}', MaxCrash=1, MaxStmts=4, MaxRows=3, MaxFlush=1, Tables='{"t1"}', Vals="{1}"), 6000),
               # two tables whose names differ by case only: root moves of one must never touch the other's catalog row
               ("c11-case", dict(MaxStmts=5, MaxRows=3, MaxFlush=0, Tables='{"t1", "T1"}', Vals="{1}", Ops='{"create", "insert"}'), 6000)],
-    "thorough": [("c11-a", dict(MaxStmts=9, MaxRows=3, MaxFlush=2, MaxEvict=1, Tables='{"t1"}', Vals="{1}", Ops='{"create", "insert", "delete"}'), 40000),
+    "thorough": [("c11-a", dict(EmitMod=8, MaxStmts=9, MaxRows=3, MaxFlush=2, MaxEvict=1, Tables='{"t1"}', Vals="{1}", Ops='{"create", "insert", "delete"}'), 40000),
                  ("c11-b", dict(MaxStmts=7, MaxRows=3, MaxFlush=0, Vals="{1}", Ops='{"create", "insert"}'), 40000),
-                 ("c11-c", dict(CrashAt='{"idle"}', MaxCrash=2, MaxStmts=6, MaxRows=3, MaxFlush=1, Tables='{"t1"}', Vals="{1}"), 40000),
+                 ("c11-c", dict(EmitMod=6, CrashAt='{"idle"}', MaxCrash=2, MaxStmts=6, MaxRows=3, MaxFlush=1, Tables='{"t1"}', Vals="{1}"), 40000),
                  ("c11-d", dict(MaxStmts=6, MaxRows=3, MaxFlush=1, Tables='{"t1"}', Vals="{1, 2}"), 40000),
                  ("c11-case", dict(MaxStmts=6, MaxRows=3, MaxFlush=1, Tables='{"t1", "T1"}', Vals="{1}", Ops='{"create", "insert", "delete"}'), 40000)],
 }
